@@ -157,10 +157,15 @@ class NoOpNodeGroup:
         if not condition.value and condition.type not in RouterCase.NO_ARGS_TESTS:
             self.router_node.update_default_exit(destination_uuid)
         else:
+            comparison_arguments = [condition.value]
+            if condition.type == "has_group":
+                # A has_group test is written with the group name; the group uuid is
+                # filled in from the name when the container is validated
+                comparison_arguments = [None, condition.value]
             self.router_node.add_choice(
                 comparison_variable=condition.variable,
                 comparison_type=condition.type or "has_any_word",
-                comparison_arguments=[condition.value],
+                comparison_arguments=comparison_arguments,
                 category_name=condition.name,
                 destination_uuid=destination_uuid,
                 is_default=False,
